@@ -81,7 +81,7 @@ fn c16_utf8_code_no_panic() {
 /// `block_size_code(tag)` for EVERY u8 tag on 0..=2 arbitrary bytes, and then the block size the
 /// frame parser derives from the result (`FrameHeader::block_size`, called by `frame`): never a
 /// panic, and an accepted code denotes the RFC 9639 block size (so 1..=65536).
-//@ unit props=C16,C15 tier=quick kind=complete timeout=300 funcs="parser::block_size_code; FrameHeader::block_size; BlockSizeSpec::block_size" finding=F-C16-parser-panics
+//@ unit props=C16,C15 tier=quick kind=complete timeout=300 funcs="parser::block_size_code; FrameHeader::block_size; BlockSizeSpec::block_size"
 #[kani::proof]
 #[kani::unwind(4)]
 fn c16_block_size_code_no_panic() {
@@ -121,7 +121,7 @@ fn c16_block_size_code_no_panic() {
 
 /// `sample_rate_code(tag)` for every 4-bit tag on 0..=2 arbitrary bytes: never a panic; tag 15
 /// (forbidden by RFC 9639) is an error; an accepted code denotes the RFC sample rate.
-//@ unit props=C16,C15 tier=quick kind=complete timeout=300 funcs="parser::sample_rate_code; SampleRateSpec::from_tag_and_data" finding=F-C16-parser-panics
+//@ unit props=C16,C15 tier=quick kind=complete timeout=300 funcs="parser::sample_rate_code; SampleRateSpec::from_tag_and_data"
 #[kani::proof]
 #[kani::unwind(4)]
 fn c16_sample_rate_code_no_panic() {
@@ -148,7 +148,7 @@ fn c16_sample_rate_code_no_panic() {
 
 /// `u_to_i(x, bits)` for every width 1..=32 and every x < 2^bits: no panic, and the result is the
 /// two's complement reading of the field.
-//@ unit props=C16,C15 tier=quick kind=complete timeout=300 funcs="parser::u_to_i" finding=F-C16-parser-panics note="width 32 is reachable only through SampleSizeSpec::B32, which StreamInfo rejects; widths 1..=26 are what the parsers use"
+//@ unit props=C16,C15 tier=quick kind=complete timeout=300 funcs="parser::u_to_i" note="width 32 is reachable only through SampleSizeSpec::B32, which StreamInfo rejects; widths 1..=26 are what the parsers use"
 #[kani::proof]
 #[kani::unwind(2)]
 fn c16_u_to_i_all_widths() {
@@ -188,7 +188,7 @@ fn c15_u_to_i_used_widths() {
 
 /// `subframe_header` on 2 arbitrary bytes at every bit offset: never a panic (a set wasted-bits
 /// flag is an unsupported-feature ERROR, not an abort).
-//@ unit props=C16 tier=quick kind=complete timeout=300 funcs="parser::subframe_header" finding=F-C16-parser-panics
+//@ unit props=C16 tier=quick kind=complete timeout=300 funcs="parser::subframe_header"
 #[kani::proof]
 #[kani::unwind(5)]
 fn c16_subframe_header_no_panic() {
@@ -228,7 +228,7 @@ fn c16_qp_body<const ORDER: usize, const N: usize>() {
     kani::cover!(!ok);
 }
 
-//@ unit props=C16 tier=quick kind=bounded timeout=600 funcs="parser::quantized_parameters; parser::raw_samples" bound="order 1, 4 arbitrary input bytes (9 + 16 bits needed at most), bit offset 0..=7" finding=F-C16-parser-panics
+//@ unit props=C16 tier=quick kind=bounded timeout=600 funcs="parser::quantized_parameters; parser::raw_samples" bound="order 1, 4 arbitrary input bytes (9 + 16 bits needed at most), bit offset 0..=7"
 #[kani::proof]
 #[kani::unwind(8)]
 #[kani::stub(std::fmt::format, stub_format)]
@@ -238,7 +238,7 @@ fn c16_quantized_parameters_order1() {
 
 /// `constant(block_size, bits)` for every documented sample width 8..=25 on 5 arbitrary bytes at
 /// every bit offset: never a panic; an accepted subframe has an in-range DC offset.
-//@ unit props=C16 tier=quick kind=complete timeout=600 funcs="parser::constant; parser::subframe_header; parser::u_to_i" note="complete: the parser reads at most 8+25 bits" finding=F-C16-parser-panics
+//@ unit props=C16 tier=quick kind=complete timeout=600 funcs="parser::constant; parser::subframe_header; parser::u_to_i" note="complete: the parser reads at most 8+25 bits"
 #[kani::proof]
 #[kani::unwind(8)]
 fn c16_constant_no_panic() {
@@ -261,7 +261,7 @@ fn c16_constant_no_panic() {
 }
 
 /// `verbatim(2, bits)` for every documented sample width on 8 arbitrary bytes at every bit offset.
-//@ unit props=C16 tier=quick kind=bounded timeout=600 funcs="parser::verbatim; parser::raw_samples" bound="block size 2, 8 input bytes" finding=F-C16-parser-panics
+//@ unit props=C16 tier=quick kind=bounded timeout=600 funcs="parser::verbatim; parser::raw_samples" bound="block size 2, 8 input bytes"
 #[kani::proof]
 #[kani::unwind(11)]
 fn c16_verbatim_no_panic() {
@@ -281,7 +281,7 @@ fn c16_verbatim_no_panic() {
     kani::cover!(!ok);
 }
 
-//@ unit props=C16 tier=quick kind=bounded timeout=600 funcs="parser::quantized_parameters; parser::raw_samples" bound="order 2, 6 arbitrary input bytes, bit offset 0..=7" finding=F-C16-parser-panics
+//@ unit props=C16 tier=quick kind=bounded timeout=600 funcs="parser::quantized_parameters; parser::raw_samples" bound="order 2, 6 arbitrary input bytes, bit offset 0..=7"
 #[kani::proof]
 #[kani::unwind(9)]
 #[kani::stub(std::fmt::format, stub_format)]
@@ -331,14 +331,14 @@ fn c16_frame_header_body<const N: usize>(check_crc: bool) {
     kani::cover!(!ok);
 }
 
-//@ unit props=C16 tier=quick kind=bounded timeout=900 funcs="parser::frame_header; parser::utf8_code; parser::block_size_code; parser::sample_rate_code; FrameHeader::block_size" bound="8 arbitrary input bytes (headers of 6..=8 bytes can be accepted; longer ones end in Incomplete)" finding=F-C16-parser-panics note="CRC-8 enforced: accepted => last byte == bitwise RFC CRC-8 of the bytes before it"
+//@ unit props=C16 tier=quick kind=bounded timeout=900 funcs="parser::frame_header; parser::utf8_code; parser::block_size_code; parser::sample_rate_code; FrameHeader::block_size" bound="8 arbitrary input bytes (headers of 6..=8 bytes can be accepted; longer ones end in Incomplete)" note="CRC-8 enforced: accepted => last byte == bitwise RFC CRC-8 of the bytes before it"
 #[kani::proof]
 #[kani::unwind(10)]
 fn c16_frame_header_crc8_enforced() {
     c16_frame_header_body::<8>(true);
 }
 
-//@ unit props=C16 tier=quick kind=bounded timeout=900 funcs="parser::frame_header; parser::utf8_code; parser::block_size_code; parser::sample_rate_code; FrameHeader::block_size" bound="8 arbitrary input bytes, CRC check disabled" finding=F-C16-parser-panics
+//@ unit props=C16 tier=quick kind=bounded timeout=900 funcs="parser::frame_header; parser::utf8_code; parser::block_size_code; parser::sample_rate_code; FrameHeader::block_size" bound="8 arbitrary input bytes, CRC check disabled"
 #[kani::proof]
 #[kani::unwind(10)]
 fn c16_frame_header_nocrc_no_panic() {
